@@ -302,12 +302,70 @@ def mutate(rng, s: bytes) -> bytes:
     return s[:p] + bytes([rng.randint(0, 255)]) + s[p:]
 
 
+def near_miss(rng, g):
+    """a sentence printed from an AST that breaks exactly one well-formedness condition (the printer does not
+    check them): the guards of the parser are exercised one at a time"""
+    k = rng.randrange(16)
+    tag = g.tag()
+    if k == 0:
+        c = ("list", False, (False, rng.random() < 0.5, True, False), g.mailbox(), b"*", [], (False,) * 4, [])
+    elif k == 1:
+        c = ("list", False, (False,) * 4, g.mailbox(), b"%", [], (False, False, True, False), [])
+    elif k == 2:
+        c = ("fetch", False, g.sset(), [("body", rng.random() < 0.5, ([], "mime"), None)])
+    elif k == 3:
+        c = ("fetch", True, g.sset(), [("body", False, ([1], ("fields", rng.random() < 0.5, [])), None)])
+    elif k == 4:
+        c = ("search", False, b"us-ascii", [("and", [g.skey(1)])])
+    elif k == 5:
+        key = ("all",)
+        for _ in range(rng.choice([31, 32, 33, 34, 40])):
+            key = rng.choice([("not", key), ("or", key, ("all",)), ("and", [key, ("all",)])])
+        c = ("search", False, b"us-ascii", [key])
+    elif k == 6:
+        y, m, d = g.date()
+        c = ("search", False, b"us-ascii", [("date", rng.choice(X.SDATES), (rng.choice([y, 0]), m, rng.choice([d, 0, 29, 30, 31, 32, 99])))])
+    elif k == 7:
+        y, m, d, h, mi, sec, off = g.date_time()
+        t = rng.choice([(y, m, d, 24, mi, sec, off), (y, m, d, h, 60, sec, off), (y, m, d, h, mi, 60, off),
+                        (y, m, 31, h, mi, sec, off), (rng.randint(0, 99), m, d, h, mi, sec, off),
+                        (y, m, d, h, mi, sec, 86400), (y, m, d, h, mi, sec, -86400 + 60)])
+        c = ("append", g.mailbox(), [], t, b"x")
+    elif k == 8:
+        c = ("store", False, g.sset(), "add", False, [])
+        return tag + b" STORE 1 +FLAGS "
+    elif k == 9:
+        kk = g.anystr()
+        c = ("id", [(kk, b"1"), (g.anystr(), None), (kk, b"2")])
+    elif k == 10:
+        raw = rng.choice([b"a//b", b"INBOX/", b"./x", b"a/../b", b"//x", b"///x", b"x/.", b"Inbox/.", b"..", b"../..", b"a/b/../.."])
+        return tag + b" SELECT " + X.r_astring(rng.choice([0, 1, 2, 3]), raw)
+    elif k == 11:
+        c = ("search", False, b"UTF-8", [("header", b"X-Mixed", b"CaSe \xc9"), ("body", b"UPPER")])
+    elif k == 12:
+        return b"a+b NOOP"
+    elif k == 13:
+        c = ("search", False, b"us-ascii", [("keyword", rng.choice([b"\\Seen", b"a b", b"", b"x(y"]))])
+    elif k == 14:
+        c = ("status", g.mailbox(), [])
+        return X.render(("ast", tag, c), X.Rand(rng))[:-1] + rng.choice([b"BOGUS)", b"MESSAGES  RECENT)", b"messagesx)"])
+    else:
+        c = ("fetch", False, [0, (0, "*")], [("body", False, ([0, 0], None), (0, 0))])
+    return X.render(("ast", tag, c), X.Rand(rng))
+
+
 def mutations(ctx, sentences, n):
     rng = ctx.rng
     inputs = []
-    kinds = {"mutated": 0, "twice": 0, "soup": 0, "random": 0}
+    kinds = {"mutated": 0, "twice": 0, "soup": 0, "random": 0, "near_miss": 0}
+    g = X.Gen(rng)
     for i in range(n):
         x = rng.random()
+        if x < 0.15:
+            inputs.append(near_miss(rng, g))
+            kinds["near_miss"] += 1
+            continue
+        x = (x - 0.15) / 0.85
         if x < 0.6:
             inputs.append(mutate(rng, rng.choice(sentences)))
             kinds["mutated"] += 1
@@ -533,7 +591,8 @@ def run(ctx):
         "(i) sentences printed from random well-formed ASTs with independent random choices per token (keyword case, "
         "atom/quoted/literal/literal+, optional syntax, alternative spellings), every command kind at least 4 times; "
         "(ii) one or two mutations (truncate, insert/delete/replace an interesting byte, duplicate, append, swap case, "
-        "change a literal count) of such sentences, token soup from a vocabulary, raw random bytes; (iii) unparsable "
+        "change a literal count) of such sentences, sentences printed from ASTs that break exactly one well-formedness "
+        "condition, token soup from a vocabulary, raw random bytes; (iii) unparsable "
         "commands through IMAPClientProxy.run. distinct = distinct input bytes; non-trivial = (i) the command has "
         "arguments, (ii) the input is parsed or longer than 8 octets")
     ok = ctx.prove("Properties/C08.v", extra_targets=["Model/ParseCmp.vo"])
